@@ -418,8 +418,36 @@ impl Session {
             .await;
 
         let peer = self.peers.get_mut(addr).ok_or(Error::PeerNotFound)?;
+        let released_index = peer.piece_index;
         peer.handle_choke(&mut self.pieces_status);
+        self.offer_released_piece(released_index);
         Ok(true)
+    }
+
+    /// Nobody fetches given piece anymore. Peers which have it, but are idle because there was
+    /// nothing to ask them for, would otherwise never hear from us again (we are not interested,
+    /// so they don't unchoke; they are unchoked, but we request nothing).
+    fn offer_released_piece(&mut self, released_index: Option<usize>) {
+        let piece_index = match released_index {
+            Some(piece_index) if self.pieces_status[piece_index] == Status::Missing => piece_index,
+            _ => return,
+        };
+
+        let addrs = self
+            .peers
+            .iter()
+            .filter(|(_, peer)| {
+                peer.pieces[piece_index] && peer.piece_index.is_none() && !peer.am_interested
+            })
+            .map(|(addr, _)| addr.clone())
+            .collect::<Vec<String>>();
+
+        if !addrs.is_empty() {
+            let _ = self
+                .general_channels
+                .broad
+                .send(BroadCmd::OfferPiece { piece_index, addrs });
+        }
     }
 
     async fn handle_unchoke(
@@ -624,7 +652,9 @@ impl Session {
         });
         self.log_peer(addr, "Peer killed, reason: ".to_string() + reason)
             .await;
+        let released_index = self.peers.get(addr).and_then(|peer| peer.piece_index);
         self.kill_peer(&addr).await;
+        self.offer_released_piece(released_index);
 
         let have_all = self
             .pieces_status
